@@ -52,7 +52,11 @@ fn gen_query(rng: &mut Rng) -> Query {
     2 => Query { name: "string2", q: json!(format!("{} {}", rare(rng), rng.pick(&COMMON[..]))), scan: false, hook: false, scored_terms: 2 },
     3 => Query {
       name: "string3",
-      q: json!(format!("{} {} {}", rare(rng), rng.pick(&COMMON[..]), rng.pick(&COMMON[..]))),
+      // distinct terms: a repeated term trips a debug_assert of the query planner (leaf ids)
+      q: {
+        let k = rng.below(4) as usize;
+        json!(format!("{} {} {}", rare(rng), COMMON[k], COMMON[(k + 1 + rng.below(3) as usize) % 4]))
+      },
       scan: false,
       hook: false,
       scored_terms: 3,
